@@ -119,6 +119,28 @@ def run(cx: Cx):
             cx.ok('R-PAIR', f"add_agent registers every component of the joining agent ({n} success paths)",
                   where=cx.where(add), function=add.qualname)
     cx.floor('add_agent success paths', n, 2)
+    # ... and it is resident before it is listed: register_component refuses a component that is listed already (the explicit
+    # registration the scheduler also offers), and a join that is refused half-way must not leave components of a non-resident listed
+    ALOC = (CORE + 'Environment', 'agents')
+    n_ord = 0
+    for p in cx.walker.paths(add, WalkOptions(unroll=2, callee_raises=False)):
+        if p.end == 'raise':
+            continue
+        regs = [i for i, e in enumerate(p.events) if e.kind == 'call' and any(t.qualname == REG for t in e.data.get('targets', []))]
+        stores = [i for i, e in enumerate(p.events) if e.kind == 'store' and e.data.get('loc') == ALOC]
+        if not regs or not stores:
+            continue
+        n_ord += 1
+        if min(stores) > min(regs):
+            cx.violation('R-ORDER', add.qualname, 'resident-before-listed',
+                         "Environment.add_agent registers components before the agent is stored in `agents`: when a later registration "
+                         "is refused (KeyError for a component that was registered by hand), the components registered so far stay "
+                         "listed for an agent that never became resident", where=cx.where(add, p.events[min(regs)].line), path=p.lines())
+            break
+    else:
+        if n_ord:
+            cx.ok('R-ORDER', f"add_agent stores the agent before it registers its components ({n_ord} path(s))", where=cx.where(add),
+                  function=add.qualname)
     a_id = Sym(rem.params[1])
     agents = Attr(Sym(rem.params[0]), 'agents')
     rself = Sym(rem.params[0])
@@ -300,6 +322,38 @@ def run(cx: Cx):
             cx.violation('R-DISC', s.fn.qualname, f"component_pools-{s.kind}",
                          f"{s.describe()}: component_pools is written outside register/deregister_component", where=s.where)
     cx.floor('component_pools write sites', len(psites), 4)
+    # ... nor reordered through a name that still is the pool: `manager[T]` / `get_components(T)` hand out the live list, and sorting,
+    # reversing or shuffling that list in place destroys the joining order of the listing for everybody
+    from sa.walker import _Ctx
+    from sa.terms import subterms_of
+    sm_cls = prog.cls(CORE + 'SystemManager')
+    n_re = 0
+    for s in cx.effects.all_sites():
+        if s.kind not in ('shuffle', 'sort', 'reverse') or s.loc == PLOC:
+            continue
+        n_re += 1
+        tctx = _Ctx(cx.walker, s.fn, WalkOptions())
+        hit = None
+        for x in subterms_of(s.ev.data.get('target')):
+            x = strip_versions(x)
+            if isinstance(x, Sub):
+                b = strip_versions(x.base)
+                try:
+                    bt = tctx.term_type(b)
+                except Exception:
+                    bt = None
+                if (isinstance(b, Attr) and b.name == PLOC[1]) or (bt and bt[0] == 'inst' and bt[1] == sm_cls and
+                                                                  not (isinstance(x.index, Const) and isinstance(x.index.value, str))):
+                    hit = x
+            elif isinstance(x, App) and x.fn in ('call:' + CORE + 'SystemManager.get_components', 'call:' + CORE + 'SystemManager.__getitem__'):
+                hit = x
+        if hit is not None:
+            cx.violation('R-DISC', s.fn.qualname, f"pool-{s.kind}-in-place",
+                         f"{s.describe()}: {hit!r} is the live component pool, and it is reordered in place - the listing is no longer in "
+                         f"the order the agents joined", where=s.where)
+    if not any('-in-place' in o.key and o.key.split(':')[-1].startswith('pool-') for o in cx.violations()):
+        cx.ok('R-DISC', f"no in-place reordering reaches a component pool ({n_re} sort / reverse / shuffle site(s) examined)",
+              where=cx.where(reg), function=reg.qualname)
 
     # ------------------------------------------------------------ clause 4: R-ATOMIC
     check_atomic(cx, add.qualname, ['DuplicateAgentError'])
